@@ -192,12 +192,12 @@ pub fn run_c10(ctx: &mut Ctx) -> Vec<Violation> {
     let t = ctx.tier;
     let mut out = vec![];
     let id = (seed32(), proptest::collection::vec(proptest::collection::vec(any::<bool>(), 1..=8), 1..=6)).prop_map(|(seed, restarts)| IdCase { seed, restarts });
-    out.extend(run_prop(ctx, "library", t.pick(3_000, 60_000), 500, id, |ctx, c| {
+    out.extend(run_prop(ctx, "library", t.pick(20_000, 200_000), 500, id, |ctx, c| {
         ctx.sample("library", 2, c);
         check_identity(ctx, c)
     }));
     let srv = (seed32(), 1u8..=3, prop::sample::select(vec![1u8, 2, 7, 64]), proptest::collection::vec(std_req(), 1..=12)).prop_map(|(seed, restarts, batch_size, reqs)| SrvIdCase { seed, restarts, batch_size, reqs });
-    out.extend(run_prop(ctx, "server", t.pick(800, 16_000), 200, srv, |ctx, c| {
+    out.extend(run_prop(ctx, "server", t.pick(4_000, 40_000), 200, srv, |ctx, c| {
         ctx.sample("server", 1, &(c.seed.clone(), c.restarts, c.reqs.len()));
         check_server_identity(ctx, c)
     }));
@@ -383,13 +383,13 @@ pub fn run_c11(ctx: &mut Ctx) -> Vec<Violation> {
         1 => prop::sample::select(vec![0u64, 1, 59, 951_782_400 /* 2000-02-29 */, 1_709_251_199, 4_102_444_799, 7_258_118_400 /* 2200 */, 253_402_300_799 /* 9999-12-31T23:59:59 */, (1u64 << 34)]),
     ];
     let case = (secs, nanos, any::<bool>(), prop_oneof![bytes_exact(32), bytes_exact(64)]).prop_map(|(secs, nanos, ietf, root)| ClockCase { secs, nanos, ietf, root });
-    out.extend(run_prop(ctx, "pure", t.pick(60_000, 3_000_000), 2000, case, |ctx, c| {
+    out.extend(run_prop(ctx, "pure", t.pick(400_000, 6_000_000), 2000, case, |ctx, c| {
         ctx.sample("pure", 3, c);
         check_clock(ctx, c)
     }));
     // live: young servers (many) and aged servers (few; each costs > 1 s of sleeping)
     let young = (seed32(), prop::sample::select(vec![1u8, 3, 64]), proptest::collection::vec(0u16..3, 1..=3), proptest::collection::vec(std_req(), 1..=10)).prop_map(|(seed, batch_size, waits_ms, reqs)| LiveCase { seed, batch_size, waits_ms, reqs, sentinel_ietf: None });
-    out.extend(run_prop(ctx, "live-young", t.pick(1_600, 30_000), 50, young, |ctx, c| check_live(ctx, c)));
+    out.extend(run_prop(ctx, "live-young", t.pick(6_000, 60_000), 50, young, |ctx, c| check_live(ctx, c)));
     let aged = (seed32(), prop::sample::select(vec![1u8, 64]), any::<bool>(), 0u8..3).prop_flat_map(|(seed, batch_size, ietf, mode)| {
         // mode 0: mixed requests, alternating sentinel; mode 1/2: requests of one protocol only and the sentinel pinned to the
         // other protocol, so consecutive steps present byte-identical batches to one responder
